@@ -40,7 +40,7 @@ def rand_regex_text(rng, depth=2):
 
 
 def generate(ctx):
-    n = 350 if ctx.tier == "quick" else 5000
+    n = 350 if ctx.tier == "quick" else 20000
     rng = ctx.rng
     cases = []
     for i in range(n):
